@@ -8,6 +8,7 @@ package confighttp
 // classes; a hand-made bomb per algorithm), real ClientConfig.ToClient -> real ServerConfig.ToServer handler chain.
 
 import (
+	"testing/iotest"
 	"bytes"
 	"compress/gzip"
 	"compress/zlib"
@@ -62,6 +63,9 @@ type c16Case struct {
 	Chunked bool `json:"unknown_length,omitempty"`
 	// Header: the Content-Encoding value actually sent (another spelling of Alg's name), by a raw client
 	Header string `json:"content_encoding_header,omitempty"`
+	// Reader: how the request body hands out its bytes (the io.Reader contract leaves room): "" plain; "data-with-eof"
+	// returns the last bytes TOGETHER with io.EOF; "one-byte" one byte per call; "half" about half of what is asked for
+	Reader string `json:"body_reader,omitempty"`
 }
 
 var c16Default = []string{"", "gzip", "zstd", "zlib", "snappy", "deflate", "lz4"} // documented default of compression_algorithms
@@ -363,10 +367,21 @@ func c16Run(e *c16Env, c c16Case) (string, string) {
 	}
 	desc := fmt.Sprintf("alg=%q level=%d enabled=%s limit=%d content=%s size=%d unknown-length=%v", c.Alg, c.Level, c.EnabledN, c.Limit, c.Kind, len(in), c.Chunked)
 	body := func() io.Reader {
+		switch c.Reader {
+		case "data-with-eof":
+			return iotest.DataErrReader(bytes.NewReader(in))
+		case "one-byte":
+			return iotest.OneByteReader(bytes.NewReader(in))
+		case "half":
+			return iotest.HalfReader(bytes.NewReader(in))
+		}
 		if c.Chunked {
 			return struct{ io.Reader }{bytes.NewReader(in)}
 		}
 		return bytes.NewReader(in)
+	}
+	if c.Reader != "" {
+		desc += " body-reader=" + c.Reader
 	}
 	list := c.Enabled
 	if list == nil {
@@ -539,7 +554,7 @@ func TestVerif(t *testing.T) {
 				c.Limit, c.Enabled, c.EnabledN = limit, enl.l, enl.name
 				ctx.R.Evals++
 				ctx.R.Trans++
-				ctx.Nontrivial(vr.Hash(c.Alg, c.Level, c.Limit, c.EnabledN, c.Kind, c.Size, string(c.Literal), c.Chunked))
+				ctx.Nontrivial(vr.Hash(c.Alg, c.Level, c.Limit, c.EnabledN, c.Kind, c.Size, string(c.Literal), c.Chunked, c.Reader, c.Header))
 				sig, what := c16Run(e, c)
 				if sig != "" {
 					ctx.Violate(sig+":"+c.Alg, what, c)
@@ -569,6 +584,16 @@ func TestVerif(t *testing.T) {
 							run(c16Case{Alg: alg, Level: lv, Kind: kind, Size: sz})
 							if lv == 0 && kind == "noise" {
 								run(c16Case{Alg: alg, Level: lv, Kind: kind, Size: sz, Chunked: true})
+								// the body reader's way of handing out bytes (io.Reader contract): last bytes together with
+								// io.EOF, one byte at a time, short reads
+								if sz <= 65537 {
+									for _, rd := range []string{"data-with-eof", "one-byte", "half"} {
+										if rd == "one-byte" && sz > 4096 {
+											continue
+										}
+										run(c16Case{Alg: alg, Level: lv, Kind: kind, Size: sz, Reader: rd})
+									}
+								}
 							}
 						}
 					}
